@@ -304,7 +304,7 @@ def _(a, b):
         P.bottleneck_matching(a, b, m, ax=ax)       # any (k,3) matching array is drawable
         unchanged(m0, m, "matching array passed to bottleneck_matching")
         return [s1, axes_summary(ax)]
-@entry("matching plots(diagrams with essential classes)", ("dgm", "dgm"))
+@entry("matching plots(diagrams with essential classes)", ("dgmmid", "dgmmid"))
 def _(a, b):
     # the matching indexes the finite points only; the plotters receive the full diagrams (essential classes at any row)
     out = []
@@ -406,6 +406,16 @@ def make_shared():
 
 def pick(rng, pool, kind):
     """returns (argument object, value-level key, pool id, form)"""
+    if kind == "dgmmid":
+        # a diagram whose essential class (infinite death) is NOT the last row: first or somewhere in the middle (GUDHI-style output,
+        # concatenated diagrams)
+        i = int(rng.integers(0, len(pool["dgm"])))
+        it = pool["dgm"][i]
+        if "float_infmid" not in it:
+            base = np.asarray(it["float"], float)
+            pos = int(rng.integers(0, max(1, len(base) - 1)))
+            it["float_infmid"] = np.insert(base, pos, [float(base[0, 0]), np.inf], axis=0)
+        return it["float_infmid"], ("dgm", i, "infmid"), ("dgm", i, "float_infmid"), "float"
     if kind in ("dgm", "dgmfin", "dgmpos", "dgmspread"):
         i = int(rng.integers(0, len(pool["dgm"])))
         it = pool["dgm"][i]
